@@ -180,3 +180,35 @@ M('c06d-marker-after-hook', 'C06', 'break', TX,
 M('c06d-marker-condition-weakened', 'C06', 'break', TX,
   '        if (tx->response_transfer_coding != HTP_CODING_NO_BODY) {\n            htp_tx_res_process_body_data_ex(tx, NULL, 0);',
   '        if (tx->response_transfer_coding == HTP_CODING_CHUNKED) {\n            htp_tx_res_process_body_data_ex(tx, NULL, 0);', 'C06.d')
+
+# ---------------- C07
+DC = 'htp/htp_decompressors.c'
+M('c07a-ratio-20480', 'C07', 'break', 'htp/htp_private.h', '#define HTP_COMPRESSION_BOMB_RATIO          2048', '#define HTP_COMPRESSION_BOMB_RATIO          20480', 'C07.a')
+M('c07a-bomb-test-skipped-on-path', 'C07', 'break', TX,
+  '    if (d->tx->response_entity_len > d->tx->connp->cfg->compression_bomb_limit &&\n        d->tx->response_entity_len > HTP_COMPRESSION_BOMB_RATIO * d->tx->response_message_len) {',
+  '    if (d->tx->connp->out_decompressor->passthrough) return HTP_OK;\n    if (d->tx->response_entity_len > d->tx->connp->cfg->compression_bomb_limit &&\n        d->tx->response_entity_len > HTP_COMPRESSION_BOMB_RATIO * d->tx->response_message_len) {', 'C07.a')
+M('c07a-bomb-logs-only', 'C07', 'break', TX,
+  '                d->tx->request_entity_len, d->tx->request_message_len);\n        return HTP_ERROR;',
+  '                d->tx->request_entity_len, d->tx->request_message_len);', 'C07.a')
+M('c07a-keep-rename-macro', 'C07', 'keep', 'htp/htp_private.h', '#define HTP_COMPRESSION_BOMB_RATIO          2048', '#define HTP_COMPRESSION_BOMB_RATIO          (1024 * 2)')
+M('c07b-len-bufsize-times-two', 'C07', 'break', DC,
+  '            d2.data = drec->buffer;\n            d2.len = GZIP_BUF_SIZE;',
+  '            d2.data = drec->buffer;\n            d2.len = GZIP_BUF_SIZE + drec->stream.avail_out;', 'C07.b')
+M('c07b-passthrough-len-from-consumed', 'C07', 'break', DC,
+  '            d2.data = d->data;\n            d2.len = d->len;\n            d2.is_last = d->is_last;\n\n            callback_rc = drec->super.callback(&d2);\n            if (callback_rc != HTP_OK) {\n                return HTP_ERROR;\n            }\n\n            drec->stream.avail_out = GZIP_BUF_SIZE;',
+  '            d2.data = d->data;\n            d2.len = d->len - consumed;\n            d2.is_last = d->is_last;\n\n            callback_rc = drec->super.callback(&d2);\n            if (callback_rc != HTP_OK) {\n                return HTP_ERROR;\n            }\n\n            drec->stream.avail_out = GZIP_BUF_SIZE;', 'C07.b')
+M('c07c-no-end-on-error', 'C07', 'break', DC,
+  '            if (callback_rc != HTP_OK) {\n                htp_gzip_decompressor_end(drec);\n                return callback_rc;\n            }\n\n            drec->stream.next_out = drec->buffer;',
+  '            if (callback_rc != HTP_OK) {\n                return callback_rc;\n            }\n\n            drec->stream.next_out = drec->buffer;', 'C07.c')
+M('c07c-end-does-not-reset-buffer', 'C07', 'break', DC,
+  '    drec->stream.next_out = drec->buffer;\n    drec->stream.avail_out = GZIP_BUF_SIZE;\n    if (drec->zlib_initialized == HTP_COMPRESSION_LZMA) {',
+  '    if (drec->zlib_initialized == HTP_COMPRESSION_LZMA) {', 'C07.c')
+M('c07c-uninitialised-arm-keeps-going', 'C07', 'break', DC,
+  '            // no initialization means previous error on stream\n            return HTP_ERROR;',
+  '            // no initialization means previous error on stream\n            drec->stream.avail_out = 0; drec->stream.avail_in = 0;', 'C07.c')
+M('c07e-layers-not-counted', 'C07', 'break', TX,
+  '                if ((tx->connp->cfg->response_decompression_layer_limit != 0) &&\n                    ((++layers) > tx->connp->cfg->response_decompression_layer_limit))',
+  '                if ((tx->connp->cfg->response_decompression_layer_limit != 0) && (tok_len > 8) &&\n                    ((++layers) > tx->connp->cfg->response_decompression_layer_limit))', 'C07.e')
+M('c07e-lzma-limit-dropped', 'C07', 'break', TX,
+  '                    if (nblzma > tx->connp->cfg->response_lzma_layer_limit) {',
+  '                    if (0) {', 'C07.e')
